@@ -616,7 +616,11 @@ func (loader *Loader) resolveHeaderRef(doc *T, component *HeaderRef, documentPat
 			return nil
 		}
 		if !loader.shouldVisitRef(ref, func(value any) {
-			component.Value = value.(*Header)
+			v, ok := value.(*Header)
+			if !ok {
+				return // the reference is in progress for another kind of component: leave it unresolved
+			}
+			component.Value = v
 			refPath, _ := loader.resolveRefPath(ref, documentPath)
 			component.setRefPath(refPath)
 		}) {
@@ -670,7 +674,11 @@ func (loader *Loader) resolveParameterRef(doc *T, component *ParameterRef, docum
 			return nil
 		}
 		if !loader.shouldVisitRef(ref, func(value any) {
-			component.Value = value.(*Parameter)
+			v, ok := value.(*Parameter)
+			if !ok {
+				return // the reference is in progress for another kind of component: leave it unresolved
+			}
+			component.Value = v
 			refPath, _ := loader.resolveRefPath(ref, documentPath)
 			component.setRefPath(refPath)
 		}) {
@@ -735,7 +743,11 @@ func (loader *Loader) resolveRequestBodyRef(doc *T, component *RequestBodyRef, d
 			return nil
 		}
 		if !loader.shouldVisitRef(ref, func(value any) {
-			component.Value = value.(*RequestBody)
+			v, ok := value.(*RequestBody)
+			if !ok {
+				return // the reference is in progress for another kind of component: leave it unresolved
+			}
+			component.Value = v
 			refPath, _ := loader.resolveRefPath(ref, documentPath)
 			component.setRefPath(refPath)
 		}) {
@@ -802,7 +814,11 @@ func (loader *Loader) resolveResponseRef(doc *T, component *ResponseRef, documen
 			return nil
 		}
 		if !loader.shouldVisitRef(ref, func(value any) {
-			component.Value = value.(*Response)
+			v, ok := value.(*Response)
+			if !ok {
+				return // the reference is in progress for another kind of component: leave it unresolved
+			}
+			component.Value = v
 			refPath, _ := loader.resolveRefPath(ref, documentPath)
 			component.setRefPath(refPath)
 		}) {
@@ -882,7 +898,11 @@ func (loader *Loader) resolveSchemaRef(doc *T, component *SchemaRef, documentPat
 			return nil
 		}
 		if !loader.shouldVisitRef(ref, func(value any) {
-			component.Value = value.(*Schema)
+			v, ok := value.(*Schema)
+			if !ok {
+				return // the reference is in progress for another kind of component: leave it unresolved
+			}
+			component.Value = v
 			refPath, _ := loader.resolveRefPath(ref, documentPath)
 			component.setRefPath(refPath)
 		}) {
@@ -968,7 +988,11 @@ func (loader *Loader) resolveSecuritySchemeRef(doc *T, component *SecurityScheme
 			return nil
 		}
 		if !loader.shouldVisitRef(ref, func(value any) {
-			component.Value = value.(*SecurityScheme)
+			v, ok := value.(*SecurityScheme)
+			if !ok {
+				return // the reference is in progress for another kind of component: leave it unresolved
+			}
+			component.Value = v
 			refPath, _ := loader.resolveRefPath(ref, documentPath)
 			component.setRefPath(refPath)
 		}) {
@@ -1008,7 +1032,11 @@ func (loader *Loader) resolveExampleRef(doc *T, component *ExampleRef, documentP
 			return nil
 		}
 		if !loader.shouldVisitRef(ref, func(value any) {
-			component.Value = value.(*Example)
+			v, ok := value.(*Example)
+			if !ok {
+				return // the reference is in progress for another kind of component: leave it unresolved
+			}
+			component.Value = v
 			refPath, _ := loader.resolveRefPath(ref, documentPath)
 			component.setRefPath(refPath)
 		}) {
@@ -1052,7 +1080,11 @@ func (loader *Loader) resolveCallbackRef(doc *T, component *CallbackRef, documen
 			return nil
 		}
 		if !loader.shouldVisitRef(ref, func(value any) {
-			component.Value = value.(*Callback)
+			v, ok := value.(*Callback)
+			if !ok {
+				return // the reference is in progress for another kind of component: leave it unresolved
+			}
+			component.Value = v
 			refPath, _ := loader.resolveRefPath(ref, documentPath)
 			component.setRefPath(refPath)
 		}) {
@@ -1108,7 +1140,11 @@ func (loader *Loader) resolveLinkRef(doc *T, component *LinkRef, documentPath *u
 			return nil
 		}
 		if !loader.shouldVisitRef(ref, func(value any) {
-			component.Value = value.(*Link)
+			v, ok := value.(*Link)
+			if !ok {
+				return // the reference is in progress for another kind of component: leave it unresolved
+			}
+			component.Value = v
 			refPath, _ := loader.resolveRefPath(ref, documentPath)
 			component.setRefPath(refPath)
 		}) {
@@ -1153,7 +1189,9 @@ func (loader *Loader) resolvePathItemRef(doc *T, pathItem *PathItem, documentPat
 			return
 		}
 		if !loader.shouldVisitRef(ref, func(value any) {
-			*pathItem = *value.(*PathItem)
+			if v, ok := value.(*PathItem); ok && v != nil {
+				*pathItem = *v
+			}
 		}) {
 			return nil
 		}
